@@ -45,7 +45,7 @@ has that capability, or `h` is an ordinary name and some value on `v`'s `@base` 
 theorem check_spec (h : TyName) (n : Bool) (v : V) :
     check h n v = true ↔
       (n = true ∧ v = V.null) ∨ h = name_always ∨ (h = name_callable ∧ callable v = true) ∨
-      (h = name_indexable ∧ indexable v = true) ∨ (h = name_iterable ∧ iterable v = true) ∨
+      (h = name_indexable ∧ indexable v = true) ∨ (h = name_iterable ∧ iterableHint v = true) ∨
       (¬ isSpecial h ∧ ∃ k w, V.baseIter k v = some w ∧ typeName w = h) := by
   have chain : (typeName v == h || baseChain h v) = true ↔ ∃ k w, V.baseIter k v = some w ∧ typeName w = h := by
     simp only [Bool.or_eq_true, beq_iff_eq, baseChain_iff]
@@ -108,6 +108,22 @@ theorem optional_only_adds_null (h : TyName) (v : V) (hv : v ≠ .null) : check 
 theorem base_chain_any_depth (h : TyName) (v w : V) (k : Nat) (hs : ¬ isSpecial h)
     (hk : V.baseIter k v = some w) (hw : typeName w = h) : check h false v = true :=
   (check_spec h false v).mpr (Or.inr (Or.inr (Or.inr (Or.inr (Or.inr ⟨hs, k, w, hk, hw⟩)))))
+
+/-- What a loop over a map hands to its arguments — one argument or several, named or wildcard — is
+a `Tuple` per entry: the internal temporary tuple of the runtime is not a value of the language and
+no hint can observe it. -/
+theorem map_iteration_yields_tuples (es : List (Nat × V)) :
+    ∀ e ∈ HintEval.entryPairs es, typeName e = kindName .tuple ∧ indexable e = indexableKind .tuple ∧
+      iterable e = iterableKind .tuple := by
+  intro e he
+  simp only [HintEval.entryPairs, List.mem_map] at he
+  obtain ⟨p, _, rfl⟩ := he
+  exact ⟨rfl, rfl, rfl⟩
+
+/-- no built-in value of the model has the internal type name, for any state of the generated tables
+in which that name is not shared with another kind -/
+theorem temporary_tuple_not_a_value (v : V) (k : Kind) (hk : plainKind v = some k) : k ≠ .temporaryTuple := by
+  cases v <;> simp [plainKind] at hk <;> subst hk <;> decide
 
 /-! ## Possibly cyclic `@base` chains (graph model; /repo fix 76738c2 for F-C16-1, F-C16-2) -/
 
